@@ -273,6 +273,24 @@ package variants
 //@     invariant arr(a) == old(arr(arrOf(c))) || fresh(a)
 //@     decreases index + 1 - len(a)
 //
+// "grow the array with nulls": the new slots hold fresh Null variants, the old elements stay
+//@ func (c *Variant) SetLength
+//@   requires vinv(c) && c.typ == Array
+//@   ensures[C20] vinv(c) && c.typ == Array && len(arrOf(c)) == max(old(len(arrOf(c))), value)
+//@   ensures[C20] forall i int :: 0 <= i && i < old(len(arrOf(c))) ==> arrOf(c)[i] == old(arrOf(c)[i])
+//@   ensures[C20] forall i int :: old(len(arrOf(c))) <= i && i < len(arrOf(c)) ==>
+//@       arrOf(c)[i] != nil && fresh(arrOf(c)[i]) && arrOf(c)[i].typ == Null && arrOf(c)[i].value == nil
+//@   assigns c.value, arrOf(c)[*]
+//@   nopanic
+//@   loop 0
+//@     invariant old(len(arrOf(c))) <= len(a) && len(a) <= max(old(len(arrOf(c))), value) && allocated(a)
+//@     invariant forall i int :: 0 <= i && i < old(len(arrOf(c))) ==> a[i] == old(arrOf(c)[i])
+//@     invariant forall i int :: old(len(arrOf(c))) <= i && i < len(a) ==>
+//@         a[i] != nil && fresh(a[i]) && a[i].typ == Null && a[i].value == nil
+//@     invariant c.typ == Array && c.value == old(c.value)
+//@     invariant arr(a) == old(arr(arrOf(c))) || fresh(a)
+//@     decreases value - len(a)
+//
 //@ func (c *Variant) GetByIndex
 //@   requires vinv(c) && c.typ == Array && 0 <= index && index < len(arrOf(c))
 //@   ensures[C20] result == arrOf(c)[index]
